@@ -51,6 +51,11 @@ def arms(pv, op, bb, idx, depth=0):
         if didx != "term" and payload["k"] == "use" and payload["op"]["k"] in ("copy", "move") and not payload["op"]["place"]["p"]:
             out.extend(arms(pv, payload["op"], dbb, didx, depth + 1))
             continue
+        if didx != "term" and payload["k"] == "ref" and not payload["mut"] and len(payload["place"]["p"]) == 1 \
+                and payload["place"]["p"][0][0] == "deref":
+            # `&*r` is `r`
+            out.extend(arms(pv, {"k": "copy", "place": {"l": payload["place"]["l"], "p": []}}, dbb, didx, depth + 1))
+            continue
         through = _arms_through_try(pv, payload, dbb, didx, depth) if didx != "term" else None
         if through is not None:
             out.extend(through)
@@ -133,7 +138,38 @@ def find_def_stmt(pv, op, bb, idx, depth=0):
     if payload["k"] == "use" and payload["op"]["k"] in ("copy", "move") and not payload["op"]["place"]["p"]:
         r = find_def_stmt(pv, payload["op"], dbb, didx, depth + 1)
         return r
+    # `x = (branch(R) as Continue).0` where the only definition of R that can continue is a literal Ok(v): the value is v
+    live = _ok_payload_ops(pv, payload, dbb, didx)
+    if live is not None and len(live) == 1:
+        op2, at = live[0]
+        return find_def_stmt(pv, op2, at[0], at[1], depth + 1)
     return ("stmt", payload, dbb, didx)
+
+
+def _ok_payload_ops(pv, payload, dbb, didx):
+    """for `x = (branch(R) as Continue).0`: [(operand inside Ok(..)/Some(..), (bb, idx))] over the definitions of R that
+    are not always-Err; None if the statement has another shape or some definition is not a literal"""
+    from .prov import is_err_term
+    if payload["k"] != "use" or payload["op"]["k"] not in ("copy", "move"):
+        return None
+    pl = payload["op"]["place"]
+    if len(pl["p"]) != 2 or pl["p"][0][0] != "downcast" or pl["p"][0][1] != "Continue" or pl["p"][1][0] != "field":
+        return None
+    ds = pv.reaching(pl["l"], dbb, didx)
+    if len(ds) != 1 or -1 in ds:
+        return None
+    _, bbb, bidx, bt = pv._defs[next(iter(ds))]
+    if bidx != "term" or callee_path(bt) != TRY_BRANCH:
+        return None
+    out = []
+    for term, rbb, rp in _def_stmts(pv, bt["args"][0], bbb, "term"):
+        if is_err_term(pv.prog, term):
+            continue
+        if rp is not None and rp["k"] == "aggr" and rp.get("variant") in ("Ok", "Some") and rp["ops"]:
+            out.append((rp["ops"][0], rp["_at"]))
+        else:
+            return None
+    return out
 
 
 class OkAggregate:
